@@ -254,6 +254,21 @@ func isSyncType(t types.Type) bool {
 	return false
 }
 
+// methodOfSyncType: the selected method belongs to a sync type (also when promoted from an embedded
+// mutex: `cache.Lock()` on `var cache struct{ sync.Mutex; ... }`) - the synchronisation itself, not
+// an access to the variable.
+func methodOfSyncType(sel *types.Selection) bool {
+	f, ok := sel.Obj().(*types.Func)
+	if !ok {
+		return false
+	}
+	sig, ok := f.Type().(*types.Signature)
+	if !ok || sig.Recv() == nil {
+		return false
+	}
+	return isSyncType(sig.Recv().Type())
+}
+
 func isRefType(t types.Type) bool {
 	switch t.Underlying().(type) {
 	case *types.Map, *types.Slice:
@@ -705,7 +720,7 @@ func (in *instr) function(fd *ast.FuncDecl) {
 					// a method call on a package-level variable may mutate it (shared hasher, cache, pool)
 					if se, ok := x.Fun.(*ast.SelectorExpr); ok {
 						if id, ok := se.X.(*ast.Ident); ok {
-							if sel := in.info.Selections[se]; sel != nil && sel.Kind() == types.MethodVal {
+							if sel := in.info.Selections[se]; sel != nil && sel.Kind() == types.MethodVal && !methodOfSyncType(sel) {
 								if in.pkgVar(id) {
 									if !isSyncType(in.info.Uses[id].Type()) {
 										add(probe{field: id.Name, write: true})
